@@ -563,9 +563,17 @@ def gen_columnfiltershape(repo):
     single, group = top[0].body, top[0].orelse
 
     def skip_kind(stmts):
+        """what happens to a condition on a partition column: "continue" (skipped at row level), or "rowgroup-term:<op>" (evaluated per
+        row group by _partition_term, merged with <op>, and only then `continue`)"""
         for n in ast.walk(ast.Module(body=stmts, type_ignores=[])):
             if isinstance(n, ast.If) and u(n.test) == "nameinself.cats":
-                return type(n.body[0]).__name__.lower()
+                body = n.body
+                if len(body) == 1 and isinstance(body[0], ast.Continue):
+                    return "continue"
+                if len(body) == 2 and isinstance(body[1], ast.Continue) and isinstance(body[0], ast.If) and u(body[0].test) == "rgsisnotNone" \
+                        and len(body[0].body) == 1 and isinstance(body[0].body[0], ast.AugAssign) and "self._partition_term(rgs," in u(body[0].body[0].value):
+                    return "rowgroup-term:" + type(body[0].body[0].op).__name__
+                return "other:" + type(body[0]).__name__.lower()
         return "none"
     # the AND accumulator is created inside the OR loop, filled in an inner loop, then OR-ed into the result
     g = [u(x).split("\n")[0] for x in group]
@@ -574,6 +582,14 @@ def gen_columnfiltershape(repo):
     merges = [u(x) for x in group if isinstance(x, ast.AugAssign)]
     inner_ops = sorted({type(n.op).__name__ for l in inner for n in ast.walk(l) if isinstance(n, ast.AugAssign)})
     single_ops = sorted({type(n.op).__name__ for st in single for n in ast.walk(st) if isinstance(n, ast.AugAssign)})
+    # _partition_term: one flag per row group from the pruning's own test, repeated over the row group's rows
+    pt = [n for n in cls.body if isinstance(n, ast.FunctionDef) and n.name == "_partition_term"]
+    pt_shape = "absent"
+    if pt:
+        body = [u(x) for x in pt[0].body if not (isinstance(x, ast.Expr) and isinstance(x.value, ast.Constant))]
+        pt_shape = "pruning-test-per-row-group" if body == [
+            "keep=[notfilter_out_cats(rg,[cond],self.partition_meta)forrginrgs]",
+            "returnnp.repeat(np.array(keep,dtype=bool),[rg.num_rowsforrginrgs])"] else "other"
     out_init = any(u(n) == "out=np.zeros(len(df),dtype=bool)" for n in fn.body)
     b = lambda x: "true" if x else "false"   # noqa: E731
     return ("-- REGENERATED on every run by tools/translate_callsites.py from fastparquet/api.py — do not edit\n"
@@ -587,6 +603,7 @@ def gen_columnfiltershape(repo):
             f"def groupMerges : List String := [{', '.join(chr(34) + m + chr(34) for m in merges)}]\n"
             f"def innerOps : List String := [{', '.join(chr(34) + m + chr(34) for m in inner_ops)}]\n"
             f"def singleOps : List String := [{', '.join(chr(34) + m + chr(34) for m in single_ops)}]\n"
+            f"def partitionTerm : String := \"{pt_shape}\"\n"
             "end PqV.Gen.ColumnFilterShape\n")
 
 
